@@ -5,6 +5,7 @@
 From Coq Require Import ZArith List Bool.
 Import ListNotations.
 From CR Require Import Base.G2Fold Model.IdPool Proofs.IdPool.
+From CR Require Import Model.IdPoolSrc Gen.Src_idpool Proofs.SrcIdPool.
 Open Scope Z_scope.
 
 (* what the invariant says: no two contained objects share an id, the id set is exactly the set of ids of the
@@ -88,6 +89,34 @@ Example C09_nonvacuous :
   idset (run step demo_ops init) = [51; 50].
 Proof. exact demo_run. Qed.
 
+(* ---- the id-pool primitives of the model are the source ---------------------------------------------------------
+   Gen/Src_idpool.v holds Scenario._is_object_id_used, _mark_object_id_as_used, _mark_object_ids_as_used and
+   generate_object_id as parsed on every run into the statement language of Model/IdPoolSrc.v
+   (harness/props/c09_src.py, fail-closed).  Run by that language's interpreter from the id set and counter of any
+   model state, the parsed programs end with the id set and counter of [mark_one] / [mark_all] / [generate], raise
+   exactly when the model returns an exception, and generate the model's id.  [R p s]: same id set, same counter. *)
+Theorem C09_mark_one_is_source : forall z s,
+  let (p', r) := run_mark_one src_mark_one z (of_st s) in
+  let (s', e) := mark_one z s in R p' s' /\ r = raised e.
+Proof. exact src_mark_one_is_model. Qed.
+Theorem C09_mark_all_is_source : forall ids s,
+  let (p', r) := run_mark_all src_mark_one src_mark_all_check src_mark_all_body ids (of_st s) in
+  let (s', e) := mark_all ids s in R p' s' /\ r = raised e.
+Proof. exact src_mark_all_is_model. Qed.
+Theorem C09_generate_is_source : forall s,
+  let (p', ret) := run_generate src_generate (of_st s) in
+  let (s', g) := generate s in R p' s' /\ ret = Some g.
+Proof. exact src_generate_is_model. Qed.
+(* non-vacuity: the parsed programs really run - a rejected id list leaves the pool alone, an accepted one is added,
+   the next generated id is above everything *)
+Example C09_source_nonvacuous :
+  let s0 := {| p_ids := [7; 3]; p_ctr := Some 3; p_new := [] |} in
+  run_mark_all src_mark_one src_mark_all_check src_mark_all_body [5; 7] s0 = ({| p_ids := [7; 3]; p_ctr := Some 3; p_new := [5] |}, true) /\
+  run_mark_all src_mark_one src_mark_all_check src_mark_all_body [5; 5] s0 = ({| p_ids := [7; 3]; p_ctr := Some 3; p_new := [5] |}, true) /\
+  fst (run_mark_all src_mark_one src_mark_all_check src_mark_all_body [5; 9] s0) = {| p_ids := [9; 5; 7; 3]; p_ctr := Some 3; p_new := [9; 5] |} /\
+  snd (run_generate src_generate s0) = Some 8.
+Proof. vm_compute. repeat split. Qed.
+
 Print Assumptions C09_inv_meaning.
 Print Assumptions C09_init.
 Print Assumptions C09_step_inv.
@@ -102,3 +131,7 @@ Print Assumptions C09_free_after_leaving.
 Print Assumptions C09_readd_after_removal.
 Print Assumptions C09_replace.
 Print Assumptions C09_nonvacuous.
+Print Assumptions C09_mark_one_is_source.
+Print Assumptions C09_mark_all_is_source.
+Print Assumptions C09_generate_is_source.
+Print Assumptions C09_source_nonvacuous.
